@@ -722,6 +722,8 @@ def main(argv):
             return 1
         print("setup ok")
         return 0
+    if len(argv) == 2 and os.environ.get("VERIF_TIER") in ("quick", "thorough"):
+        argv = argv + [os.environ["VERIF_TIER"]]
     if len(argv) < 3:
         print("usage: check <Cxx> quick|thorough | check <Cxx> --replay <file> | check --setup")
         return 2
